@@ -35,21 +35,32 @@ type soloEnv struct {
 	PanicKind string
 	Log     []HostCallRec
 	Record  bool
+	Only    string // if set, only calls of the function with this name are counted, logged and faulted
+	Boom    int64  // value returned by the "boom" host function (switches planted failure sites on)
 }
 
 // HostCallRec is one host call observed in solo mode.
 type HostCallRec struct {
 	Name string
 	Arg  int64 // first argument if it is an int (marker id), else -1
+	Arg2 int64 // second argument if it is an int (depth counter), else -1
 }
 
 func (s *soloEnv) next(name string, args []tengo.Object) hostBehaviour {
+	if s.Only != "" && name != s.Only {
+		return hostBehaviour{}
+	}
 	s.Calls++
 	if s.Record {
-		rec := HostCallRec{Name: name, Arg: -1}
+		rec := HostCallRec{Name: name, Arg: -1, Arg2: -1}
 		if len(args) > 0 {
 			if i, ok := args[0].(*tengo.Int); ok {
 				rec.Arg = i.Value
+			}
+		}
+		if len(args) > 1 {
+			if i, ok := args[1].(*tengo.Int); ok {
+				rec.Arg2 = i.Value
 			}
 		}
 		s.Log = append(s.Log, rec)
@@ -63,6 +74,11 @@ func (s *soloEnv) next(name string, args []tengo.Object) hostBehaviour {
 // SoloReset prepares the solo host environment for one run.
 func (e *Engine) SoloReset(failAt, how int, panicKind string, record bool) {
 	e.solo = soloEnv{FailAt: failAt, FailHow: how, PanicKind: panicKind, Record: record}
+}
+
+// SoloMarkers: count, log and fault only the marker calls; boom selects a planted site.
+func (e *Engine) SoloMarkers(failAt int, boom int64) {
+	e.solo = soloEnv{FailAt: failAt, FailHow: hbErr, Record: true, Only: "mk.mark", Boom: boom}
 }
 
 func (e *Engine) SoloLog() []HostCallRec { return e.solo.Log }
@@ -82,6 +98,9 @@ func (e *Engine) HostFunc(flavour, name string) tengo.CallableFunc {
 			hb = r.host
 		} else {
 			hb = e.solo.next(name, args)
+		}
+		if flavour == "boom" {
+			return &tengo.Int{Value: e.solo.Boom}, nil
 		}
 		switch hb.kind {
 		case hbErr:
@@ -172,6 +191,11 @@ func (e *Engine) hostBehaviourFor(t *thread, r *RunInfo, a *arrival) hostBehavio
 // HostModule returns the attribute table of a simulator-provided builtin module.
 func (e *Engine) HostModule(flavour string) map[string]tengo.Object {
 	switch flavour {
+	case "marker":
+		return map[string]tengo.Object{
+			"mark": &tengo.UserFunction{Name: "mark", Value: e.HostFunc("id", "mk.mark")},
+			"boom": &tengo.UserFunction{Name: "boom", Value: e.HostFunc("boom", "mk.boom")},
+		}
 	case "simmod2":
 		return map[string]tengo.Object{
 			"k":    &tengo.Int{Value: 8},
